@@ -538,7 +538,7 @@ func bigResponses(t *testing.T) {
 			{Name: "u", Prefix: "row-", Kind: gen.KUnique}, {Name: "a", Kind: gen.KMod, K: 3, Prefix: "v"}}}}
 		taut := model.Not(model.Eq("a", "none"))
 		c := &Case{Data: spec, Writer: n % fix.NWriters,
-			Batches:  [][]Q{{{Expr: taut, GroupBy: []string{"u"}}, {ID: 5, Expr: model.Eq("a", "v1"), GroupBy: []string{"u"}}}},
+			Batches:  [][]Q{{{Expr: taut, GroupBy: []string{"u"}}, {ID: 5, Expr: model.Eq("a", "v1"), GroupBy: []string{"u"}}}, {{Expr: taut, GroupBy: []string{"a", "u", "a"}}}},
 			DriverQs: []Q{{Expr: taut, GroupBy: []string{"u"}}, {Expr: model.Eq("a", "v2"), GroupBy: []string{"u"}}}}
 		run(t, c)
 	}
